@@ -299,6 +299,7 @@ class C11(Check):
                 if isinstance(q['data'], int):
                     sent_for.setdefault(q['data'], s)
         losses = [(t, why) for (t, _seq, _c, why) in pr.fault_log if why in ('peer-close', 'peer-reset', 'send-failed')]
+        losses_conn = [(t, why, c) for (t, _seq, c, why) in pr.fault_log if why in ('peer-close', 'peer-reset', 'send-failed')]
         blackholes = [t for (t, _seq, _c, why) in pr.fault_log if why == 'blackhole']
         user_dis = [d for d in ctx['disconnects']]
         any_fault = bool(losses or blackholes or case.get('faults') or
@@ -455,9 +456,10 @@ class C11(Check):
                                                  f'caller {r["task"]} uid {r["uid"]} timed out at t={r["t1"]:.2f} although '
                                                  f'the peer sent its reply at t={s["t"]:.2f}'))
                     # connection lost while waiting: must have been released with a connection error
-                    for t, why in losses:
+                    for t, why, cidx in losses_conn:
+                        # (the loss of the connection on which this request was sent)
                         if r['t0'] < t and r['t1'] > t + 0.6 + 1.0 + 2.0 and arrived.get(r['uid']) is not None and \
-                                arrived[r['uid']]['t'] < t:
+                                arrived[r['uid']]['t'] < t and arrived[r['uid']]['conn'] == cidx:
                             res.append(Violation('C11.not-released', why,
                                                  f'caller {r["task"]} uid {r["uid"]} waited from t={r["t0"]:.2f}; the '
                                                  f'connection was lost ({why}) at t={t:.2f}; released only at '
